@@ -16,8 +16,8 @@ class Variation:
     """Which structural point of the input space an instance sits at (layout is enumerated,
     contents are symbolic)."""
 
-    def __init__(self, present=None, default_present="all", intclass=1, lens=None, text="ascii",
-                 choose=None, seed=0):
+    def __init__(self, present=None, default_present="all", intclass=1, lens=None, text="utf8",
+                 choose=None, seed=0, symbool=False, boolflip=0):
         self.present = present or {}          # struct name -> iterable of optional field names
         self.default_present = default_present  # "all" | "none"
         self.intclass = intclass              # 0: small concrete ints, 1/2/4/8: symbolic in class
@@ -25,6 +25,8 @@ class Variation:
         self.text = text                      # "ascii" | "utf8"
         self.choose = choose or {}            # path -> explicit choice (enum variant, small int ...)
         self.seed = seed
+        self.symbool = symbool                # True only for encode-side harnesses
+        self.boolflip = boolflip              # flips the alternating true/false assignment
 
     def is_present(self, sname, fname):
         if sname in self.present:
@@ -211,9 +213,22 @@ class TBool(T):
         return "bool"
 
     def make(self, ctx, path):
-        return Leaf(var=ctx.h.sym_bool())
+        # A CBOR boolean is a single byte, i.e. its value IS the head byte.  On the decode side
+        # every boolean sits under Option<bool>, whose null test peeks that byte: a symbolic
+        # boolean makes the decoder position an ite() and everything after it explodes
+        # (measured: GetAssertion options + any other member > 200 s, concrete 15 s).  So on
+        # the decode side booleans are layout (enumerated); on the encode side they are symbolic.
+        if ctx.var.symbool:
+            return Leaf(var=ctx.h.sym_bool())
+        b = ctx.var.choice(path, None)
+        if b is None:
+            ctx.var._boolctr = getattr(ctx.var, "_boolctr", 0) + 1
+            b = ((ctx.var._boolctr + ctx.var.seed + ctx.var.boolflip) % 2) == 1
+        return Leaf(var="true" if b else "false", const=b)
 
     def cbor(self, m):
+        if m.var in ("true", "false"):
+            return C.Bool(m.var == "true")
         return C.Bool(m.var)
 
     def check(self, ctx, e, m):
